@@ -7,7 +7,7 @@ Import ListNotations.
 Definition kernel_verdicts : list (N * list N) :=
   map (fun p => (fst p, match snd p with
                         | VM c kkl bare pol m codes _ => map clause_code (run_ms_case c kkl bare pol m codes)
-                        | VT kkl pol ik inpol dl ex _ => map clause_code (run_tr_case kkl pol ik inpol dl ex)
+                        | VT kkl pol ik inpol dl ex nat _ => map clause_code (run_tr_case kkl pol ik inpol dl ex nat)
                         end))
       (filter (fun p => negb (sample_ok (snd p))) (combine (map N.of_nat (seq 0 (length val_samples))) val_samples)).
 Eval vm_compute in kernel_verdicts.
